@@ -1,6 +1,7 @@
 """C05 -- macro expansion (DESIGN 5.5)."""
 from framework import *
 import ppx, macroref
+import pegexec
 from props import c06
 
 PARTIAL = ("proved for every usage, table and text: the binding rule of formals (C05_binding), the three misuse errors with "
@@ -167,6 +168,9 @@ def check(ctx):
     texts += [(gen_program(r, True), "macro-misuse") for _ in range(80 if q else 1500)]
     pcs = [ppx.PC({"top.sv": t}, tag=tag) for t, tag in texts]
     cases, res, diffs = ppx.correspond(ctx, "preprocess (define/usage programs) vs PP/Eval.v", pcs, "c05")
+    # the oracle of that model, pp_parser: the regenerated grammar run by Peg.run must give the real trees
+    small = [t for t, _ in texts if len(t.encode("utf-8")) <= 1500]
+    pegexec.correspond(ctx, [("pp", t) for t in small[:len(HAND) + len(HAND_ERR)] + r.sample(small, min(len(small), 150 if q else 900))], "c05peg", minimum=100)
     bad, nd6 = None, 0
     for (t, tag), pc, rr in zip(texts, pcs, res):
         if rr.crash:
